@@ -184,3 +184,57 @@ def run(P: Program, R: Report, tier: str) -> None:
     from .c05 import id_truthiness
 
     id_truthiness(P, R, "R14.7", modules=("import_export",))
+    # ---- R14.8 the 'missing' mask of a loaded property survives the renaming step
+    missing_mask_passthrough(P, R, "R14.8")
+
+
+def missing_mask_passthrough(P: Program, R: Report, rule: str) -> None:
+    """A GEFF property is (values, missing).  Elements flagged missing must come back WITHOUT the attribute; if the
+    renaming step drops or thins the mask, they come back with the store's fill value instead (0.0), so a value that
+    was absent before export is present after import.  The mask may be replaced by None only when it flags nothing."""
+    f = P.func_named("import_graph_from_geff")
+    funcs = [f]
+    for c in ast.walk(f.node):
+        if isinstance(c, ast.Call) and isinstance(c.func, ast.Name):
+            q = P.resolve_name(f.module, c.func.id)
+            g = P.functions.get(q) if q else None
+            if g is not None and g not in funcs and ".import_export." in g.qname:
+                funcs.append(g)
+    n = 0
+    for g in funcs:
+        for d in ast.walk(g.node):
+            if not (isinstance(d, ast.Dict) and {getattr(k, "value", None) for k in d.keys} >= {"values", "missing"}):
+                continue
+            mv = d.values[[getattr(k, "value", None) for k in d.keys].index("missing")]
+            n += 1
+            # all definitions that can reach the expression
+            names = {x.id for x in ast.walk(mv) if isinstance(x, ast.Name)}
+            defs = [s for s in ast.walk(g.node) if isinstance(s, ast.Assign) and any(isinstance(t, ast.Name) and t.id in names for t in s.targets)]
+            exprs = [mv] + [s.value for s in defs]
+            src_ok = any('"missing"' in norm(e).replace("'", '"') for e in exprs)
+            R.check(src_ok, rule, g, d, f"{g.short}: the renamed property takes its mask from the source property's mask",
+                    f"`missing` is built from `{norm(mv)[:60]}`: the source mask is dropped - absent values come back as the fill value", via="dataflow")
+            # places where the mask is replaced by None
+            from .util import guards_of
+
+            for s in defs:
+                if isinstance(s.value, ast.Constant) and s.value.value is None:
+                    gs = [x.replace(" ", "") for x in guards_of(g, s)]
+                    nm = s.targets[0].id
+                    accepted = {f"not{nm}.any()", f"{nm}isNone", f"not({nm}.any())", f"notnp.any({nm})", f"{nm}.sum()==0", f"notany({nm})"}
+                    cond = [x for x in gs if nm in x and x not in (f"{nm}isnotNone",)]
+                    if all(x in accepted for x in cond) and cond:
+                        R.ok(rule, g, s, f"{g.short}: the mask is normalised to None only when it flags nothing", via="guard-shape")
+                    elif any(".all()" in x or "np.all(" in x for x in cond):
+                        R.fail(rule, g, s, f"{g.short}: the mask is normalised to None only when it flags nothing",
+                               f"`{nm} = None` under {cond}: a mask that flags SOME elements is dropped, those elements come back with the fill value instead of without the attribute")
+                    else:
+                        R.undecided(rule, g, s, f"{g.short}: the mask is normalised to None only when it flags nothing", f"condition {cond} not recognised")
+            for e in exprs:
+                for ie in ast.walk(e):
+                    if isinstance(ie, ast.IfExp) and any(isinstance(b, ast.Constant) and b.value is None for b in (ie.body, ie.orelse)):
+                        t = norm(ie.test).replace(" ", "")
+                        if ".all()" in t or "np.all(" in t:
+                            R.fail(rule, g, ie, f"{g.short}: the mask is normalised to None only when it flags nothing",
+                                   f"`{norm(ie)[:80]}`: a mask that flags some elements is dropped")
+    R.floor(rule, "renamed (values, missing) records", n, 2)
